@@ -190,6 +190,8 @@ def validate_traces(
     timeout: int = 900,
     tag: str = "trace",
     min_per_shard: int = 200,
+    boundary: t.Optional[t.Callable[[t.Any], bool]] = None,
+    xss: str = "",
 ) -> t.Tuple[t.List[t.Tuple[int, str, str]], int, int]:
     """Model-check a *Trace specification over recorded events.
 
@@ -205,12 +207,20 @@ def validate_traces(
         return [], 0, 0
     k = max(1, min(shards, n // min_per_shard or 1))
     bounds = [(i * n) // k for i in range(k + 1)]
+    if boundary is not None:  # a shard starts where a trace starts
+        for j in range(1, k):
+            b = bounds[j]
+            while b < n and not boundary(events[b]):
+                b += 1
+            bounds[j] = b
+        bounds = sorted(set(bounds))
+        k = len(bounds) - 1
     jobs = []
     for s in range(k):
         path = os.path.join(wd, f"{tag}-{s}.ndjson")
         write_ndjson(path, events[bounds[s] : bounds[s + 1]])
         jobs.append(
-            dict(module=module, cfg=cfg, wd=wd, workers=1, env={"TRACE_FILE": path}, timeout=timeout, tag=f"{tag}{s}")
+            dict(module=module, cfg=cfg, wd=wd, workers=1, env={"TRACE_FILE": path}, timeout=timeout, tag=f"{tag}{s}", xss=xss)
         )
     results = run_tlc_parallel(jobs)
     verdicts: t.List[t.Tuple[int, str, str]] = []
